@@ -279,3 +279,25 @@ CORPUS += [
     V("C06", "mtvrp-checker-limit-unsqueezed-broadcast", R + "mtvrp/env.py", 'curr_length <= td["distance_limit"].squeeze(-1)', 'curr_length <= td["distance_limit"]', "C06.f"),
     V("C06", "cvrptw-row0-deadline-again", R + "cvrptw/env.py", '<= td["time_windows"][..., 0, 1, None]', '<= td["time_windows"][..., 0, 1][0]', "C06.f"),
 ]
+
+TSPE = R + "tsp/env.py"
+PDPE = R + "pdp/env.py"
+CORPUS += [
+    # ---------------------------------------------------------------- C09
+    V("C09", "kopt-reset-best-aliases-current", TSPE, '"rec_best": current_rec.clone(),', '"rec_best": current_rec,', "C09.a"),
+    V("C09", "kopt-reset-cost-bsf-alias", TSPE, '"cost_bsf": obj.clone(),', '"cost_bsf": obj,', "C09.a"),
+    V("C09", "kopt-local-operator-in-place", TSPE, "    def _local_operator(self, solution, action):\n        rec = solution.clone()", "    def _local_operator(self, solution, action):\n        rec = solution", "C09.a"),
+    V("C09", "kopt-solution-to-not-cloned", TSPE, "            next_rec = solution_to.clone()", "            next_rec = solution_to", "C09.a"),
+    V("C09", "kopt-bsf-nonstrict", TSPE, "now_bsf = torch.where(new_obj < cost_bsf, new_obj, cost_bsf)", "now_bsf = torch.where(new_obj < cost_bsf, cost_bsf, new_obj)", "C09.b"),
+    V("C09", "kopt-reward-sign", TSPE, "        reward = cost_bsf - now_bsf\n        index = reward > 0.0\n        solution_best[index] = next_rec[index].clone()\n\n        # reset visited_time\n        visited_time = td[\"visited_time\"] * 0\n        pre = torch.zeros((bs), device=visited_time.device).long()\n        arange = torch.arange(bs)\n        for i in range(gs):\n            current_nodes = next_rec[arange, pre]\n            visited_time[arange, current_nodes] = i + 1\n            pre = current_nodes\n        visited_time = visited_time.long()",
+      "        reward = now_bsf - cost_bsf\n        index = reward > 0.0\n        solution_best[index] = next_rec[index].clone()\n\n        # reset visited_time\n        visited_time = td[\"visited_time\"] * 0\n        pre = torch.zeros((bs), device=visited_time.device).long()\n        arange = torch.arange(bs)\n        for i in range(gs):\n            current_nodes = next_rec[arange, pre]\n            visited_time[arange, current_nodes] = i + 1\n            pre = current_nodes\n        visited_time = visited_time.long()", "C09.b"),
+    V("C09", "pdp-best-update-vs-current-cost", PDPE, "        index = reward > 0.0\n", '        index = new_obj < td["cost_current"]\n', "C09.b"),
+    V("C09", "pdp-cost-of-old-tour", PDPE, "        new_obj = self.get_costs(locs, next_rec)\n", '        new_obj = self.get_costs(locs, td["rec_current"])\n', "C09"),
+    V("C09", "kopt-visited-time-from-old-tour", TSPE, "            current_nodes = next_rec[arange, pre]\n            visited_time[arange, current_nodes] = i + 1\n            pre = current_nodes\n        visited_time = visited_time.long()\n\n        # Update step", '            current_nodes = td["rec_current"][arange, pre]\n            visited_time[arange, current_nodes] = i + 1\n            pre = current_nodes\n        visited_time = visited_time.long()\n\n        # Update step', "C09.d"),
+    V("C09", "pdp-stale-argsort", PDPE, "        rec.scatter_(1, pair_index, pair_index)\n\n        argsort = rec.argsort()\n", "        rec.scatter_(1, pair_index, pair_index)\n", "C09.f"),
+    V("C09", "kopt-two-opt-walk-too-short", TSPE, "            for i in range(self.generator.num_loc):\n                cur_next = solution.gather(1, cur)", "            for i in range(self.generator.num_loc - 2):\n                cur_next = solution.gather(1, cur)", "C09.g"),
+    V("C09", "dact-decode-mismatch", "rl4co/models/zoo/dact/policy.py", "action_sampled % seq_length,", "action_sampled % (seq_length - 1),", "C09.e"),
+    V("C09", "get-costs-sum-wrong-axis", "rl4co/envs/common/base.py", "length = (d1 - d2).norm(p=2, dim=2).sum(1)", "length = (d1 - d2).norm(p=2, dim=1).sum(1)", "C09.c"),
+    V("C09", "eq-kopt-rename", TSPE, "now_bsf", "best_now", None, count=99),
+    V("C09", "eq-kopt-where-flipped", TSPE, "now_bsf = torch.where(new_obj < cost_bsf, new_obj, cost_bsf)", "now_bsf = torch.where(cost_bsf > new_obj, new_obj, cost_bsf)", None),
+]
